@@ -14,7 +14,11 @@
    28 an input directory was modified
    29 C12_spike_template_rows (cross-property link, PV.C12.Link): for merged spike i, coming from probe k with
       original template t, row (merged spike_templates[i]) of the merged templates.npy is not template t of probe k
-      on probe k's channel block with zeros elsewhere *)
+      on probe k's channel block with zeros elsewhere
+   30 C11_no_wrap: an integer dtype of the merged spike_times / spike_clusters / spike_templates files cannot hold the
+      largest input time / the largest merged cluster id / the largest merged template id (values wrapped around)
+   The model is PV.C11.Model.merge_dt: merge with NumPy's fixed-width arithmetic in the dtypes _int_dtype chooses from the
+   first probe's dtypes (equal to the Z-level merge by C11_no_wrap). *)
 From Coq Require Import ZArith List Bool String.
 From PV Require Export Base.Tok C11.Model C11.Spec.
 From PV Require Import C11.Proofs.
@@ -30,11 +34,23 @@ Definition ctemplates := list (list (list tok)).      (* one templates.npy: [tem
 
 (* the probes (spike side, with p_ntmpl = number of rows of the probe's templates.npy) and the content of each probe's
    templates.npy; observed: the spike side of the merged directory and the merged templates.npy (None: absent or not 3-D) *)
-Inductive input := InMerge (ps : list cprobe) (Ts : list ctemplates).
-Inductive observed := ObsMerged (o : cobsrec) (T : option ctemplates) | ObsCrash.
+(* Ts = None: probes with very many templates, whose templates.npy content is not transcribed (clause 29 and the
+   row-count regime check are skipped; p_ntmpl is trusted from the generator).
+   dts: the integer dtypes in which the FIRST probe stores spike_times, spike_clusters, spike_templates;
+   odts: the dtypes of the three merged files *)
+Inductive input := InMerge (ps : list cprobe) (Ts : option (list ctemplates)) (dts : idt * idt * idt).
+Inductive observed := ObsMerged (o : cobsrec) (T : option ctemplates) (odts : idt * idt * idt) | ObsCrash.
 Record case := { cid : Z; cin : input; cobs : observed }.
 
 Definition flag (code : Z) (ok : bool) : list Z := if ok then [] else [code].
+
+(* run-length decoding of an observed array (cluster_probes.npy is transcribed as (value, count) runs) *)
+Definition rle (l : list (Z * Z)) : list Z := flat_map (fun vn => repeat (fst vn) (Z.to_nat (snd vn))) l.
+
+Definition idt_eqb (a b : idt) : bool :=
+  match a, b with U8, U8 | U16, U16 | U32, U32 | U64, U64 | I8, I8 | I16, I16 | I32, I32 | I64, I64 => true | _, _ => false end.
+Definition dts_eqb (a b : idt * idt * idt) : bool :=
+  match a, b with (a1, a2, a3), (b1, b2, b3) => idt_eqb a1 b1 && idt_eqb a2 b2 && idt_eqb a3 b3 end.
 
 Definition zl_eq := list_eqb Z.eqb.
 Definition al_eq := list_eqb tok_eqb.
@@ -48,9 +64,10 @@ Definition probe_ok (p : cprobe) : bool :=
   let n := List.length (p_times p) in
   Nat.eqb (List.length (p_amps p)) n && Nat.eqb (List.length (p_tmpl p)) n && Nat.eqb (List.length (p_clu p)) n &&
   forallb (fun c => 0 <=? c) (p_clu p) && forallb (fun c => 0 <=? c) (p_tmpl p) && (0 <=? p_ntmpl p) &&
+  forallb (fun t => 0 <=? t) (p_times p) &&
   Nat.eqb (List.length (p_meta p)) n_meta_files &&
   forallb (fun om => match om with
-                     | Some mt => forallb (fun kv => (0 <=? fst kv) && (fst kv <=? zmaxl (p_clu p))) (mt_rows mt)
+                     | Some mt => forallb (fun kv => 0 <=? fst kv) (mt_rows mt)      (* any id >= 0, with or without spikes *)
                      | None => true end) (p_meta p).
 (* at least two spikes in total: TemplateModel squeezes a one-spike dataset to 0-d arrays (C04's regime) *)
 (* the templates.npy given for probe k has p_ntmpl rows, each a rectangular (samples x channels) array of the probe's width *)
@@ -59,9 +76,12 @@ Definition tmpl_ok (pT : cprobe * ctemplates) : bool :=
   (Z.of_nat (List.length T) =? p_ntmpl (fst pT)) &&
   forallb (fun tm => Nat.eqb (List.length tm) (C12.Model.tshape1 T) &&
                      forallb (fun r => Nat.eqb (List.length r) (C12.Model.tshape2 T)) tm) T.
-Definition in_regime (ps : list cprobe) (Ts : list ctemplates) : bool :=
+Definition in_regime (ps : list cprobe) (Ts : option (list ctemplates)) : bool :=
   forallb probe_ok ps && Nat.leb 2 (List.length (List.concat (map (@p_times tok string string) ps))) &&
-  Nat.eqb (List.length Ts) (List.length ps) && forallb tmpl_ok (combine ps Ts).
+  match Ts with
+  | Some Ts' => Nat.eqb (List.length Ts') (List.length ps) && forallb tmpl_ok (combine ps Ts')
+  | None => true
+  end.
 (* the well-formedness guard of the template count: every spike names one of its probe's templates.  Inputs that violate
    it are only compared with the model (code 1): the statement does not hold for them (C11_template_count_needed) *)
 Definition tmpl_guard (ps : list cprobe) : bool :=
@@ -69,27 +89,28 @@ Definition tmpl_guard (ps : list cprobe) : bool :=
 
 (* clause 29, judged on the OBSERVED merged spike_templates.npy and templates.npy against the input alone:
    M = the input spikes in (time, probe, index) order = the provenance of the merged spikes (clauses 21-23) *)
-Definition c_link (ps : list cprobe) (Ts : list ctemplates) (o : cobsrec) (T : option ctemplates) : bool :=
-  match T with
-  | Some T' => C12.Link.spike_rows_b tzero tok_eqb Ts (sorted_tagged (tagged_concat ps)) (o_tmpl o) T'
-  | None => false
+Definition c_link (ps : list cprobe) (Ts : option (list ctemplates)) (o : cobsrec) (T : option ctemplates) : bool :=
+  match Ts, T with
+  | None, _ => true                            (* template content not transcribed *)
+  | Some Ts', Some T' => C12.Link.spike_rows_b tzero tok_eqb Ts' (sorted_tagged (tagged_concat ps)) (o_tmpl o) T'
+  | Some _, None => false
   end.
 
 Definition check (c : case) : list Z :=
-  match cin c with InMerge ps Ts =>
+  match cin c with InMerge ps Ts (t0, c0, i0) =>
   if negb (in_regime ps Ts) then [3] else
-  match merge ps, cobs c with
+  match merge_dt t0 c0 i0 ps, cobs c with
   | None, ObsCrash => []                      (* no probe / a probe without spikes: np.max raises *)
-  | None, ObsMerged _ _ => [1]
+  | None, ObsMerged _ _ _ => [1]
   | Some _, ObsCrash =>
       (* outside the guard the merged spike_templates may name rows that do not exist and load_model (C04's subject,
          called at the end of merge()) may raise: no verdict *)
-      if tmpl_guard ps then [1; 21; 22; 23; 24; 25; 26; 27; 29] else []
-  | Some m, ObsMerged o T =>
+      if tmpl_guard ps then [1; 21; 22; 23; 24; 25; 26; 27; 29; 30] else []
+  | Some (m, mdts), ObsMerged o T odts =>
       let same := zl_eq (m_times m) (o_times o) && al_eq (m_amps m) (o_amps o) && zl_eq (m_tmpl m) (o_tmpl o) &&
                   zl_eq (m_clu m) (o_clu o) && zl_eq (m_cprobes m) (o_cprobes o) &&
                   zl_eq (m_coffs m) (o_coffs o) && zl_eq (m_toffs m) (o_toffs o) &&
-                  list_eqb omt_eqb (m_meta m) (o_meta o) in
+                  list_eqb omt_eqb (m_meta m) (o_meta o) && dts_eqb mdts odts in
       let ret := match o_ret o with (t, a, tm, cl) =>
                    zl_eq t (o_times o) && al_eq a (o_amps o) && zl_eq tm (o_tmpl o) && zl_eq cl (o_clu o) end &&
                  list_eqb omt_eqb (o_ret_meta o) (o_meta o) in
@@ -103,7 +124,8 @@ Definition check (c : case) : list Z :=
       flag 26 (c_meta String.eqb String.eqb ps o) ++
       flag 27 ret ++
       flag 28 (o_unchanged o) ++
-      flag 29 (c_link ps Ts o T)
+      flag 29 (c_link ps Ts o T) ++
+      flag 30 (c_width ps odts)
   end end.
 
 Definition run (cases : list case) : list (Z * Z) :=
